@@ -62,7 +62,7 @@ def evDev (out : List (OutEntry Nat Float)) (ev : Ev Nat Float) : Float :=
 it writes with the functional model's output table -/
 def streamCheck (cs : Comps Nat) (V : List Nat) (out : List (OutEntry Nat Float)) : String :=
   let mo := maxOrder cs
-  if mo < 2 then "stream shape=true consumed=true events=0 probs=0 maxdev=0" else
+  if mo < 2 then "stream shape=true consumed=true events=0 probs=0 maxdev=0 zip=true" else
   let streams := (List.range (mo - 1)).map (fun j => sortedStream cs (j + 2))
   let X := sortedX cs
   let Y := sortedY cs
@@ -72,7 +72,8 @@ def streamCheck (cs : Comps Nat) (V : List Nat) (out : List (OutEntry Nat Float)
   let consumed := r.1.all (·.isEmpty)
   let nprob := (r.2.filter (fun e => match e with | Ev.prob .. => true | _ => false)).length
   let dev := (r.2.map (evDev out)).foldl (fun a b => if b > a then b else a) 0.0
-  s!"stream shape={shape} consumed={consumed} events={r.2.length} probs={nprob} maxdev={fbits dev}"
+  let zip := (List.range (mo - 1)).all (fun j => decide (backoffStream cs (j + 1) = probStream3 cs (j + 1)))
+  s!"stream shape={shape} consumed={consumed} events={r.2.length} probs={nprob} maxdev={fbits dev} zip={zip}"
 
 def step (s : St) (line : String) : St × String :=
   match words line with
